@@ -1,1 +1,451 @@
-pub fn run(_tier: vcommon::Tier, _replay: Option<String>) -> i32 { 2 }
+//! C13: UpdateMask accessors, dirty tracking and wire form agree with the published field table.
+use crate::adapters::*;
+use proptest::prelude::*;
+use serde_json::json;
+use std::collections::{BTreeMap, BTreeSet};
+use vcommon::{Check, Tier};
+use wowm_model::frame::{decode, entries, Entry};
+use wowm_model::resolve::*;
+use wowm_model::walk::Val;
+
+#[derive(Debug, Clone)]
+struct TableEntry {
+    offset: u16,
+    size: u16,
+    ty: String,
+}
+
+/// `wowm_language/src/types/update-mask.md`: per version, NAME -> (offset, size, type)
+fn field_tables() -> BTreeMap<&'static str, BTreeMap<String, TableEntry>> {
+    let text = std::fs::read_to_string(vcommon::repo_root().join("wowm_language/src/types/update-mask.md")).unwrap_or_default();
+    let mut out: BTreeMap<&'static str, BTreeMap<String, TableEntry>> = BTreeMap::new();
+    let mut cur: Option<&'static str> = None;
+    for line in text.lines() {
+        if let Some(v) = line.strip_prefix("### Version ") {
+            cur = match v.trim() {
+                "1.12" => Some("vanilla"),
+                "2.4.3" => Some("tbc"),
+                "3.3.5" => Some("wrath"),
+                _ => None,
+            };
+            continue;
+        }
+        let Some(exp) = cur else { continue };
+        if !line.starts_with("|`") {
+            continue;
+        }
+        let cells: Vec<&str> = line.trim_matches('|').split('|').map(|c| c.trim()).collect();
+        if cells.len() < 4 {
+            continue;
+        }
+        let name = cells[0].trim_matches('`').to_string();
+        let offset = u16::from_str_radix(cells[1].trim_start_matches("0x"), 16).unwrap_or(u16::MAX);
+        let size = cells[2].parse::<u16>().unwrap_or(0);
+        out.entry(exp).or_default().insert(name, TableEntry { offset, size, ty: cells[3].to_string() });
+    }
+    out
+}
+
+/// (bit, value) pairs of the update mask carried by an SMSG_UPDATE_OBJECT, read by the wowm model
+fn wire_fields(u: &Universe, e: &Entry, bytes: &[u8]) -> Result<(usize, Vec<(u16, u32)>, Vec<u32>), String> {
+    let d = decode(u, e, bytes)?;
+    let mut fields = Vec::new();
+    let mut blocks = 0usize;
+    let mut masks = Vec::new();
+    for l in &d.trace {
+        if let Some(rest) = l.path.strip_prefix("objects[0].mask1") {
+            if rest == ".<blocks>" {
+                if let Val::I(n) = l.value {
+                    blocks = n as usize;
+                }
+            } else if rest.starts_with(".<mask") {
+                if let Val::I(n) = l.value {
+                    masks.push(n as u32);
+                }
+            } else if let Some(b) = rest.strip_prefix('[').and_then(|r| r.strip_suffix(']')) {
+                if let (Ok(bit), Val::I(v)) = (b.parse::<u16>(), &l.value) {
+                    fields.push((bit, *v as u32));
+                }
+            }
+        }
+    }
+    Ok((blocks, fields, masks))
+}
+
+#[derive(Debug, Clone, Default)]
+struct Model {
+    values: BTreeMap<u16, u32>,
+    present: BTreeSet<u16>,
+    dirty: BTreeSet<u16>,
+    blocks: usize,
+    /// mark_fully_dirty sets every bit of the existing blocks
+    all_dirty_blocks: usize,
+}
+
+impl Model {
+    fn new(type_value: u32) -> Self {
+        let mut m = Model::default();
+        m.values.insert(2, type_value);
+        m.present.insert(2);
+        m.dirty.insert(2);
+        m.blocks = 1;
+        m
+    }
+    fn set(&mut self, offset: u16, words: &[u32]) {
+        for (i, w) in words.iter().enumerate() {
+            let b = offset + i as u16;
+            self.values.insert(b, *w);
+            self.present.insert(b);
+            self.dirty.insert(b);
+            self.blocks = self.blocks.max(b as usize / 32 + 1);
+        }
+    }
+    fn is_dirty(&self, b: u16) -> bool {
+        self.dirty.contains(&b) || (b as usize) < self.all_dirty_blocks * 32
+    }
+    fn written(&self) -> Vec<(u16, u32)> {
+        self.present.iter().filter(|b| self.is_dirty(**b)).map(|b| (*b, self.values[b])).collect()
+    }
+}
+
+#[derive(Debug, Clone)]
+enum Op {
+    Set(usize, u64),
+    DirtyReset,
+    MarkFullyDirty,
+    Write,
+}
+
+struct Field {
+    name: &'static str,
+    sig: &'static str,
+    offset: u16,
+}
+
+fn type_value(kind: &str) -> u32 {
+    1 | match kind {
+        "UpdateItem" => 0x2,
+        "UpdateContainer" => 0x2 | 0x4,
+        "UpdateUnit" => 0x8,
+        "UpdatePlayer" => 0x8 | 0x10,
+        "UpdateGameObject" => 0x20,
+        "UpdateDynamicObject" => 0x40,
+        _ => 0x80,
+    }
+}
+
+/// runs a history on a fresh mask and the model; Err = (kind, detail)
+fn run_history(u: &Universe, carrier_entry: &Entry, k: &UmKind, fields: &[Field], ops: &[Op], read_back: &dyn Fn(&[u8]) -> Result<(String, Vec<u8>), String>) -> Result<(), (String, String)> {
+    let mut obj = (k.new)();
+    let mut m = Model::new(type_value(k.kind));
+    for (step, op) in ops.iter().enumerate() {
+        match op {
+            Op::Set(fi, val) => {
+                let f = &fields[*fi % fields.len()];
+                obj.set(f.name, *val);
+                m.set(f.offset, &words_of(f.sig, *val));
+            }
+            Op::DirtyReset => {
+                obj.dirty_reset();
+                m.dirty.clear();
+                m.all_dirty_blocks = 0;
+            }
+            Op::MarkFullyDirty => {
+                obj.mark_fully_dirty();
+                m.all_dirty_blocks = m.blocks;
+            }
+            Op::Write => {
+                let bytes = obj.carrier().map_err(|e| ("write-failed".to_string(), format!("step {}: {}", step, e)))?;
+                let (blocks, wire, masks) = wire_fields(u, carrier_entry, &bytes).map_err(|e| ("written-form-unreadable".to_string(), format!("step {}: the model cannot read the written message: {}", step, e)))?;
+                if blocks != m.blocks {
+                    return Err(("block-count".into(), format!("step {}: {} mask blocks written, expected {}", step, blocks, m.blocks)));
+                }
+                let want = m.written();
+                // the table does not prescribe which half of a two-u16 field comes first: either packing is accepted
+                let wire: Vec<(u16, u32)> = wire.into_iter().map(|(b, w)| match want.iter().find(|(wb, _)| *wb == b) {
+                    Some((_, ww)) if fields.iter().any(|f| f.sig == "shorts" && f.offset == b) && w == ww.rotate_left(16) => (b, *ww),
+                    _ => (b, w),
+                }).collect();
+                if wire != want {
+                    return Err(("written-fields".into(), format!("step {}: written fields {:?}, expected present-and-dirty in ascending index {:?}", step, wire, want)));
+                }
+                for (bi, mk) in masks.iter().enumerate() {
+                    let exp: u32 = want.iter().filter(|(b, _)| *b as usize / 32 == bi).fold(0u32, |a, (b, _)| a | 1 << (b % 32));
+                    if *mk != exp {
+                        return Err(("mask-block".into(), format!("step {}: mask block {} is {:#x}, expected {:#x}", step, bi, mk, exp)));
+                    }
+                }
+                // decoding a written form that carries the object-type field returns exactly the written fields
+                if want.iter().any(|(b, _)| *b == 2) {
+                    let (debug, rewritten) = read_back(&bytes).map_err(|e| ("read-back-rejected".to_string(), format!("step {}: {}", step, e)))?;
+                    if rewritten != bytes {
+                        return Err(("read-back-rewrite".into(), format!("step {}: decoding and re-encoding the written form changes the bytes", step)));
+                    }
+                    // `values: {2: 25, 22: 100}` in the Debug output of the decoded mask
+                    if let Some(i) = debug.find("values: {") {
+                        let body = &debug[i + 9..];
+                        let end = body.find('}').unwrap_or(body.len());
+                        let got: Vec<(u16, u32)> = body[..end].split(", ").filter_map(|kv| kv.split_once(": ")).filter_map(|(k, v)| Some((k.trim().parse().ok()?, v.trim().parse().ok()?))).collect();
+                        let got: Vec<(u16, u32)> = got.into_iter().map(|(b, w)| match want.iter().find(|(wb, _)| *wb == b) {
+                            Some((_, ww)) if fields.iter().any(|f| f.sig == "shorts" && f.offset == b) && w == ww.rotate_left(16) => (b, *ww),
+                            _ => (b, w),
+                        }).collect();
+                        if got != want {
+                            return Err(("read-back-fields".into(), format!("step {}: decoded fields {:?}, written {:?}", step, got, want)));
+                        }
+                    }
+                }
+            }
+        }
+        // invariants after every step
+        for f in fields {
+            let want: Option<Vec<u32>> = {
+                let n = if f.sig == "guid" { 2 } else { 1 };
+                if m.present.contains(&f.offset) {
+                    Some((0..n).map(|i| m.values.get(&(f.offset + i)).copied().unwrap_or(0)).collect())
+                } else {
+                    None
+                }
+            };
+            let got = obj.get(f.name).flatten();
+            if got != want {
+                return Err(("getter".into(), format!("step {} ({:?}): getter {} returns {:?}, last value set is {:?}", step, op, f.name, got, want)));
+            }
+        }
+        let any = (0..(m.blocks * 32) as u16).any(|b| m.is_dirty(b));
+        if obj.has_any_dirty_fields() != any {
+            return Err(("has-any-dirty".into(), format!("step {} ({:?}): has_any_dirty_fields is {}", step, op, !any)));
+        }
+        for b in 0..(m.blocks * 32) as u16 {
+            let got = std::panic::catch_unwind(std::panic::AssertUnwindSafe(|| obj.is_bit_dirty(b))).map_err(|_| ("is-bit-dirty-panic".to_string(), format!("step {}: is_bit_dirty({}) panicked", step, b)))?;
+            if got != m.is_dirty(b) {
+                return Err(("dirty-bit".into(), format!("step {} ({:?}): bit {} dirty = {}, expected {}", step, op, b, got, m.is_dirty(b))));
+            }
+        }
+    }
+    Ok(())
+}
+
+macro_rules! read_back_fn {
+    ($exp:ident) => {
+        |bytes: &[u8]| -> Result<(String, Vec<u8>), String> {
+            use wow_world_messages::$exp::opcodes::ServerOpcodeMessage;
+            let m = ServerOpcodeMessage::read_unencrypted(&mut std::io::Cursor::new(bytes)).map_err(|e| format!("{:?}", e))?;
+            let mut v = Vec::new();
+            m.write_unencrypted_server(&mut v).map_err(|e| format!("{:?}", e))?;
+            Ok((format!("{:?}", m), v))
+        }
+    };
+}
+
+pub fn run(tier: Tier, replay: Option<String>) -> i32 {
+    let mut c = Check::new("C13", tier);
+    let u = match wowm_model::load_corpus(&vcommon::repo_root()) {
+        Ok(u) => u,
+        Err(e) => {
+            eprintln!("C13: {}", e);
+            return 2;
+        }
+    };
+    if replay.is_some() {
+        println!("C13 replays re-run the quick tier with the recorded seed");
+        if let Some(p) = &replay {
+            let j = vcommon::read_json(std::path::Path::new(p));
+            c.seed = j["seed"].as_u64().unwrap_or(1);
+        }
+    }
+    let all_entries = entries(&u);
+    let tables = field_tables();
+    let kinds = um_kinds();
+    c.rule = "(a) every generated typed accessor of every object kind and expansion found by the scan: on a fresh mask after dirty_reset (and through the builder) the setter is called with tape values; the dirty bits (is_bit_dirty), the fields on the wire (SMSG_UPDATE_OBJECT written by the public writer, read back by the wowm model) and the getter must be exactly [offset, offset+width) / the value, with offset and enclosing [offset, offset+size) taken from the table of that name and version in types/update-mask.md (GUID accessors 2 words, others 1). (b) histories: all sequences to depth 4 over {set f1..f5, dirty_reset, mark_fully_dirty, write} on a representative field set per kind (lowest, block-boundary and highest offsets, one of each signature class) and proptest sequences to length 40, against a model (values map, present set, dirty set, block count) with invariants after every step: getters, is_bit_dirty for every bit, has_any_dirty_fields, and on write: block count, mask blocks = present and dirty, values ascending, decoding a form that carries the TYPE field returns exactly the written fields and re-encodes identically. Non-trivial = history with a write after a dirty operation, or an accessor case; distinct = (expansion, kind, accessor) / (expansion, kind, operation sequence shape).".into();
+    c.assume("accessors with custom argument types (enum tuples, indexed item/skill/quest structs) are counted, not exercised");
+    c.assume("the size reported for the mask is observed through the writer's own 'declared size == bytes written' assertion");
+    let seed = c.seed;
+    let mut reported: BTreeSet<String> = BTreeSet::new();
+    for k in &kinds {
+        let Some(ns) = Ns::all().into_iter().find(|n| n.text() == k.exp) else { continue };
+        let Some(carrier) = all_entries.iter().find(|e| e.ns == ns && e.name == "SMSG_UPDATE_OBJECT") else { continue };
+        let table = tables.get(k.exp).cloned().unwrap_or_default();
+        let read_back: Box<dyn Fn(&[u8]) -> Result<(String, Vec<u8>), String>> = match k.exp {
+            "vanilla" => Box::new(read_back_fn!(vanilla)),
+            "tbc" => Box::new(read_back_fn!(tbc)),
+            _ => Box::new(read_back_fn!(wrath)),
+        };
+        c.count_n("accessors_with_custom_arguments_not_exercised", k.custom.len() as u64);
+        let mut fields: Vec<Field> = Vec::new();
+        // ---- (a) every accessor against the table
+        for (name, sig, has_builder) in k.accessors {
+            let tname = name.to_uppercase();
+            let Some(te) = table.get(&tname) else {
+                c.count("accessor_without_table_entry");
+                if reported.insert(format!("{}:{}:{}", k.exp, k.kind, name)) {
+                    c.fail(&format!("c13:{}:{}:{}:no-table-entry", k.exp, k.kind, name), &format!("accessor {} has no field named {} in the {} table", name, tname, k.exp), json!({"exp": k.exp, "kind": k.kind, "accessor": name}));
+                }
+                continue;
+            };
+            let width: u16 = if *sig == "guid" { 2 } else { 1 };
+            for (vi, val) in [0xDEAD_BEEF_0BAD_F00Du64, vcommon::mix(seed, vcommon::fnv(name.as_bytes())), 1].iter().enumerate() {
+                let words = words_of(sig, *val);
+                for via_builder in [false, true] {
+                    if via_builder && (!*has_builder || vi > 0) {
+                        continue;
+                    }
+                    c.eval();
+                    c.nontrivial(vcommon::fnv(format!("{}|{}|{}|{}", k.exp, k.kind, name, via_builder).as_bytes()));
+                    let obj: Box<dyn MaskObj> = if via_builder {
+                        match (k.build)(name, *val) {
+                            Some(o) => o,
+                            None => continue,
+                        }
+                    } else {
+                        let mut o = (k.new)();
+                        o.dirty_reset();
+                        o.set(name, *val);
+                        o
+                    };
+                    let mut fail = |c: &mut Check, kind: &str, detail: String| {
+                        if reported.insert(format!("{}:{}:{}:{}", k.exp, k.kind, name, kind)) {
+                            c.fail(&format!("c13:{}:{}:{}:{}", k.exp, k.kind, name, kind), &detail, json!({"exp": k.exp, "kind": k.kind, "accessor": name, "value": format!("{:#x}", val), "via_builder": via_builder, "table": {"offset": te.offset, "size": te.size, "type": te.ty}}));
+                        }
+                    };
+                    let mut expect_bits: Vec<u16> = (te.offset..te.offset + width).collect();
+                    if width > te.size.max(1) {
+                        fail(&mut c, "wider-than-table-entry", format!("{} writes {} words but the table entry has size {}", name, width, te.size));
+                    }
+                    if via_builder {
+                        // a mask built by the builder is fully dirty and carries the TYPE field
+                        if !expect_bits.contains(&2) {
+                            expect_bits.insert(0, 2);
+                        }
+                        expect_bits.sort();
+                    }
+                    let dirty = dirty_bits(obj.as_ref());
+                    if dirty != expect_bits {
+                        fail(&mut c, "dirty-bits", format!("dirty bits {:?}, the table says {} is at offset {} ({} word(s))", dirty, tname, te.offset, width));
+                    }
+                    match obj.get(name).flatten() {
+                        Some(g) if g == words => {}
+                        other => fail(&mut c, "getter", format!("getter returns {:?} after setting {:?}", other, words)),
+                    }
+                    match obj.carrier() {
+                        Err(e) => fail(&mut c, "write-failed", e),
+                        Ok(bytes) => match wire_fields(&u, carrier, &bytes) {
+                            Err(e) => fail(&mut c, "written-form-unreadable", e),
+                            Ok((_, wire, _)) => {
+                                let swap16 = |w: u32| w.rotate_left(16);
+                                let wire: Vec<(u16, u32)> = if *sig == "shorts" { wire.iter().map(|(b, w)| if *b == te.offset && *w == swap16(words[0]) { (*b, words[0]) } else { (*b, *w) }).collect() } else { wire };
+                                let want: Vec<(u16, u32)> = expect_bits.iter().map(|b| if *b == 2 && via_builder && !(te.offset..te.offset + width).contains(&2) { (2, type_value(k.kind)) } else { (*b, words[(*b - te.offset) as usize]) }).collect();
+                                if wire != want {
+                                    fail(&mut c, "wire", format!("fields on the wire {:x?}, expected {:x?}", wire, want));
+                                } else if c.samples.len() < 6 && c.evaluations % 701 == 5 {
+                                    c.sample(json!({"exp": k.exp, "kind": k.kind, "accessor": name, "sig": sig, "table_offset": te.offset, "wire": format!("{:x?}", wire), "via_builder": via_builder}));
+                                }
+                            }
+                        },
+                    }
+                }
+            }
+            fields.push(Field { name, sig, offset: te.offset });
+        }
+        // ---- (b) histories over a representative field set
+        fields.sort_by_key(|f| f.offset);
+        let mut rep: Vec<usize> = Vec::new();
+        let mut add = |i: usize, rep: &mut Vec<usize>| {
+            if i < fields.len() && !rep.contains(&i) && fields[i].offset != 2 {
+                rep.push(i);
+            }
+        };
+        add(0, &mut rep);
+        add(fields.len().saturating_sub(1), &mut rep);
+        for sigc in ["guid", "f32", "bytes", "shorts", "i32"] {
+            if let Some(i) = fields.iter().position(|f| f.sig == sigc && f.offset != 2) {
+                add(i, &mut rep);
+            }
+        }
+        for boundary in [31u16, 32, 33, 63, 64, 65] {
+            if let Some(i) = fields.iter().position(|f| f.offset == boundary || (f.sig == "guid" && f.offset + 1 == boundary)) {
+                add(i, &mut rep);
+            }
+        }
+        let rep_fields: Vec<Field> = rep.iter().take(8).map(|i| Field { name: fields[*i].name, sig: fields[*i].sig, offset: fields[*i].offset }).collect();
+        if rep_fields.is_empty() {
+            continue;
+        }
+        c.extra.insert(format!("representative_fields.{}.{}", k.exp, k.kind), json!(rep_fields.iter().map(|f| format!("{}@{}", f.name, f.offset)).collect::<Vec<_>>()));
+        let label = format!("{}:{}", k.exp, k.kind);
+        // exhaustive to depth 4 over: set of the first 3 representative fields, dirty_reset, mark_fully_dirty, write
+        let alphabet: Vec<Op> = {
+            let mut a: Vec<Op> = (0..rep_fields.len().min(3)).map(|i| Op::Set(i, 0x1111_1111_2222_2222 * (i as u64 + 1))).collect();
+            a.extend([Op::DirtyReset, Op::MarkFullyDirty, Op::Write]);
+            a
+        };
+        let depth = tier.pick(4, 5);
+        let mut idx = vec![0usize; depth];
+        'outer: loop {
+            let mut ops: Vec<Op> = idx.iter().map(|i| alphabet[*i].clone()).collect();
+            ops.push(Op::Write);
+            c.eval();
+            if ops.iter().any(|o| matches!(o, Op::DirtyReset | Op::MarkFullyDirty)) {
+                c.nontrivial(vcommon::fnv(format!("{}|exh|{:?}", label, idx).as_bytes()));
+            }
+            if let Err((kind, detail)) = run_history(&u, carrier, k, &rep_fields, &ops, read_back.as_ref()) {
+                if reported.insert(format!("{}:history:{}", label, kind)) {
+                    c.fail(&format!("c13:{}:history:{}", label, kind), &detail, json!({"exp": k.exp, "kind": k.kind, "ops": format!("{:?}", ops), "fields": rep_fields.iter().map(|f| f.name).collect::<Vec<_>>()}));
+                }
+            }
+            let mut p = 0;
+            loop {
+                if p == depth {
+                    break 'outer;
+                }
+                idx[p] += 1;
+                if idx[p] < alphabet.len() {
+                    break;
+                }
+                idx[p] = 0;
+                p += 1;
+            }
+        }
+        c.count("kinds_with_exhaustive_histories");
+        // proptest sequences to length 40
+        let nf = rep_fields.len();
+        let op = prop_oneof![
+            4 => (0..nf, any::<u64>()).prop_map(|(i, v)| Op::Set(i, v)),
+            1 => Just(Op::DirtyReset),
+            1 => Just(Op::MarkFullyDirty),
+            2 => Just(Op::Write),
+        ];
+        let strat = prop::collection::vec(op, 1..40);
+        let cc = std::cell::RefCell::new(&mut c);
+        let fail = vcommon::prop_search(seed, vcommon::fnv(label.as_bytes()), tier.pick(300, 20_000), &strat, |ops, counting| {
+            if counting {
+                let mut c = cc.borrow_mut();
+                c.eval();
+                let shape: Vec<u8> = ops.iter().map(|o| match o { Op::Set(i, _) => *i as u8, Op::DirtyReset => 100, Op::MarkFullyDirty => 101, Op::Write => 102 }).collect();
+                let mut seen_dirty_op = false;
+                let mut nt = false;
+                for o in ops {
+                    match o {
+                        Op::DirtyReset | Op::MarkFullyDirty => seen_dirty_op = true,
+                        Op::Write if seen_dirty_op => nt = true,
+                        _ => {}
+                    }
+                }
+                if nt {
+                    c.nontrivial(vcommon::fnv(format!("{}|{:?}", label, shape).as_bytes()));
+                    c.count("history.write_after_dirty_op");
+                }
+            }
+            run_history(&u, carrier, k, &rep_fields, ops, read_back.as_ref()).map_err(|(k, d)| format!("{}|{}", k, d))
+        });
+        if let Some((ops, msg)) = fail {
+            let (kind, detail) = msg.split_once('|').unwrap_or((&msg, ""));
+            if reported.insert(format!("{}:history:{}", label, kind)) {
+                c.fail(&format!("c13:{}:history:{}", label, kind), detail, json!({"exp": k.exp, "kind": k.kind, "ops": format!("{:?}", ops), "fields": rep_fields.iter().map(|f| f.name).collect::<Vec<_>>()}));
+            }
+        }
+    }
+    c.extra.insert("kinds".into(), json!(kinds.len()));
+    c.extra.insert("accessors_exercised".into(), json!(kinds.iter().map(|k| k.accessors.len()).sum::<usize>()));
+    c.finish()
+}
